@@ -88,6 +88,9 @@ ALPHA = {
     "i8": {"quick": [0, 1, -1, 9007199254740993],
            "thorough": [0, 1, -1, 9007199254740993, -9223372036854775808, 9223372036854775807]},
     "u1": {"quick": [0, 200], "thorough": [0, 5, 200]},
+    # types the first Parquet format version had no counterpart for: unsigned 32-bit, nanosecond timestamps
+    "u4": {"quick": [0, 4294967295], "thorough": [0, 7, 4294967295]},
+    "ns": {"quick": [None, "2020-02-29T23:59:59.999999001"], "thorough": [None, "2020-02-29T23:59:59.999999001", "1969-12-31T23:59:59.999999999"]},
     "b1": {"quick": [False, True], "thorough": [False, True]},
     "bo": {"quick": [None, False, True], "thorough": [None, False, True]},
     "str": {"quick": [None, "a", "é"], "thorough": [None, "a", "é", "ab", "日本"]},
@@ -121,9 +124,9 @@ LOOKALIKES = {
 }
 
 KINDS = {
-    "pickle": ["f8", "i8", "u1", "b1", "bo", "str", "U", "D", "s", "ms", "us", "obj", "td", "h"],
-    "npz": ["f8", "i8", "u1", "b1", "bo", "str", "U", "D", "s", "ms", "us", "obj", "td", "h"],
-    "parquet": ["f8", "i8", "u1", "b1", "bo", "str", "D", "ms", "us", "td", "h"],
+    "pickle": ["f8", "i8", "u1", "b1", "bo", "str", "U", "D", "s", "ms", "us", "obj", "td", "h", "u4", "ns"],
+    "npz": ["f8", "i8", "u1", "b1", "bo", "str", "U", "D", "s", "ms", "us", "obj", "td", "h", "u4", "ns"],
+    "parquet": ["f8", "i8", "u1", "b1", "bo", "str", "D", "ms", "us", "td", "h", "u4", "ns"],
     "csv": ["f8", "i8", "b1", "bo", "str", "D", "us"],
     "json": ["f8", "i8", "b1", "bo", "str"],
 }
